@@ -23,6 +23,9 @@
 //@   replace "Map<&str, ValidatorInfo>" => "Map<&'static str, ValidatorInfo>"
 //@   exec_const VALIDATOR_INFO.ns() == ns_vinfo()
 //@ end
+//@ item src/staking.rs :: const VALIDATORS
+//@   exec_const VALIDATORS.ns() == str_bytes("validators"@)
+//@ end
 //@ item src/staking.rs :: const UNBONDING_QUEUE
 //@   exec_const UNBONDING_QUEUE.ns() == k_queue()
 //@ end
